@@ -20,6 +20,8 @@ pub mod c15;
 pub mod c16;
 pub mod c17;
 pub mod c18;
+pub mod c19;
+pub mod c19_bin;
 pub mod c20;
 pub mod c14_extra;
 
@@ -42,6 +44,7 @@ pub fn dispatch(args: &Args) -> i32 {
         "C16" => c16::run(args),
         "C17" => c17::run(args),
         "C18" => c18::run(args),
+        "C19" => c19::run(args),
         "C20" => c20::run(args),
         other => {
             eprintln!("unknown property id {:?}", other);
